@@ -8,9 +8,12 @@ import (
 	"cosmossdk.io/math"
 	sdk "github.com/cosmos/cosmos-sdk/types"
 	errortypes "github.com/cosmos/cosmos-sdk/types/errors"
+	authante "github.com/cosmos/cosmos-sdk/x/auth/ante"
 	"golang.org/x/exp/slices"
 
 	evmante "github.com/haqq-network/haqq/app/ante/evm"
+	haqqtypes "github.com/haqq-network/haqq/types"
+	evmtypes "github.com/haqq-network/haqq/x/evm/types"
 )
 
 // MinGasPriceDecorator will check if the transaction's fee is at least as large
@@ -87,6 +90,33 @@ func (mpd MinGasPriceDecorator) AnteHandle(ctx sdk.Context, tx sdk.Tx, simulate 
 			"provided fee < minimum global fee (%s < %s). Please increase the gas price.",
 			feeCoins,
 			requiredFees)
+	}
+
+	// What a transaction is charged can be less than what it declares: with the dynamic-fee extension option the fee
+	// checker deducts min(baseFee + tip, fee/gas) x gas. The floor is about what is paid, so the charged amount has to
+	// reach it as well (as the Ethereum route checks the effective price, not the fee cap).
+	if hasExtOptsTx, ok := tx.(authante.HasExtensionOptionsTx); ok && gas > 0 {
+		for _, opt := range hasExtOptsTx.GetExtensionOptions() {
+			extOpt, ok := opt.GetCachedValue().(*haqqtypes.ExtensionOptionDynamicFeeTx)
+			if !ok {
+				continue
+			}
+			ethCfg := evmParams.ChainConfig.EthereumConfig(mpd.evmKeeper.ChainID())
+			baseFee := mpd.evmKeeper.GetBaseFee(ctx, ethCfg)
+			if baseFee == nil || extOpt.MaxPriorityPrice.IsNil() || extOpt.MaxPriorityPrice.IsNegative() {
+				break
+			}
+			gasInt := math.NewIntFromUint64(gas)
+			feeCap := feeCoins.AmountOfNoDenomValidation(evmDenom).Quo(gasInt)
+			effectivePrice := math.NewIntFromBigInt(evmtypes.EffectiveGasPrice(baseFee, feeCap.BigInt(), extOpt.MaxPriorityPrice.BigInt()))
+			charged := sdk.Coins{{Denom: evmDenom, Amount: effectivePrice.Mul(gasInt)}}
+			if required := requiredFees.AmountOf(evmDenom); required.IsPositive() && charged.AmountOfNoDenomValidation(evmDenom).LT(required) {
+				return ctx, errorsmod.Wrapf(errortypes.ErrInsufficientFee,
+					"the fee charged at the effective gas price (%s) < minimum global fee (%s). Please increase the priority price.",
+					charged, requiredFees)
+			}
+			break
+		}
 	}
 
 	return next(ctx, tx, simulate)
